@@ -423,6 +423,145 @@ func (e *Exec) frameCheckAppend(st *State, fr *Frame, arr Loc, owner *Loc, pos t
 	e.oblige(st, fr, "frame", pos, Or(goal...))
 }
 
+// readAllModel: ioutil.ReadAll / io.ReadAll over a reader of known dynamic type whose Read method has a contract.
+// ReadAll calls Read until it reports an error. Summary used here (loop summarisation with the callee's precondition
+// I as the invariant): the first call is an ordinary call by contract; if it succeeds, I must hold again (obligation:
+// the callee's contract has to say so); after that the state is an arbitrary one satisfying I (everything the callee may
+// assign is made arbitrary) from which one more call by contract is made, and that call is the one that fails.
+// ReadAll returns nil for io.EOF and the error otherwise; the bytes returned are unspecified.
+func (e *Exec) readAllModel(st *State, fr *Frame, fn *ssa.Function, args []Value, pos token.Pos) []Outcome {
+	r, ok := args[0].(*IfaceV)
+	if ok && r.Tid.Op != "intconst" && e.discovery == 0 && e.specMode == 0 {
+		// the dynamic type is symbolic: one case per type of this module whose Read is under contract, each only
+		// if the path condition allows it; any other type must be impossible here
+		e.oblige(st, fr, "safe.nil", pos, Not(Eq(r.Tid, IntConst(0))))
+		feasible := func(s *State) bool {
+			if s.dead {
+				return false
+			}
+			if e.pruner == nil {
+				e.pruner = NewPruner()
+			}
+			return !e.pruner.Infeasible(append(append([]*Term{}, s.pc...), s.facts...))
+		}
+		var outs []Outcome
+		rest := st.Clone()
+		seen := map[string]bool{}
+		for _, sp := range e.specs.byFn {
+			if sp.Fn == nil || sp.Fn.Name() != "Read" || sp.Fn.Signature.Recv() == nil || !sp.hasContract() || seen[sp.Target] {
+				continue
+			}
+			seen[sp.Target] = true
+			rt := sp.Fn.Signature.Recv().Type()
+			tid := e.tid(rt)
+			rest.Assume(Not(Eq(r.Tid, tid)))
+			s := st.Clone()
+			s.Assume(Eq(r.Tid, tid))
+			if !feasible(s) {
+				continue
+			}
+			a2 := append([]Value{&IfaceV{Tid: tid, Ref: r.Ref}}, args[1:]...)
+			outs = append(outs, e.readAllModel(s, fr, fn, a2, pos)...)
+		}
+		rest.Assume(Not(Eq(r.Tid, IntConst(0))))
+		if feasible(rest) {
+			panic(unsupported("ReadAll of a reader whose dynamic type is not known"))
+		}
+		return outs
+	}
+	if !ok || r.Tid.Op != "intconst" || r.Tid.Val == 0 || e.tidTypes[int(r.Tid.Val)-1] == nil {
+		panic(unsupported("ReadAll of a reader whose dynamic type is not known"))
+	}
+	t := e.tidTypes[int(r.Tid.Val)-1]
+	var readM *types.Func
+	ms := types.NewMethodSet(t)
+	for i := 0; i < ms.Len(); i++ {
+		if ms.At(i).Obj().Name() == "Read" {
+			readM = ms.At(i).Obj().(*types.Func)
+		}
+	}
+	if readM == nil {
+		panic(unsupported("ReadAll: no Read method on " + t.String()))
+	}
+	rf := e.methodOf(t, readM)
+	sp := e.specs.ForFn(rf)
+	if rf == nil || sp == nil || !sp.hasContract() || sp.NoFrame {
+		panic(unsupported("ReadAll of a reader whose Read has no contract: " + t.String()))
+	}
+	e.note("ReadAll is summarised through the contract of " + sp.Target + ": first call, precondition re-established after every successful call (obligation), then an arbitrary later call that fails")
+	recv := e.unbox(st, t, r)
+	bt := types.NewSlice(types.Typ[types.Uint8])
+	mkbuf := func(s *State) *SliceV {
+		n := Fresh("readall.buf", BV(64))
+		s.Assume(And(BVUle(BVConst(1, 64), n), BVUle(n, BVConst(maxLen, 64))))
+		return e.newSlice(s, types.Typ[types.Uint8], n, n)
+	}
+	eof := e.ioEOF(st, "EOF")
+	result := func(s *State, err *IfaceV) Outcome {
+		data := freshValue("readall.data", bt)
+		e.assumeValid(s, bt, data)
+		isEOF := And(Eq(err.Tid, eof.Tid), Eq(err.Ref, eof.Ref))
+		return Outcome{s, []Value{data, &IfaceV{Tid: Ite(isEOF, IntConst(0), err.Tid), Ref: Ite(isEOF, IntConst(0), err.Ref)}}}
+	}
+	var outs []Outcome
+	for _, o1 := range e.callContract(st, fr, sp, rf, []Value{recv, mkbuf(st)}, pos) {
+		if o1.st.dead {
+			continue
+		}
+		err1 := o1.results[1].(*IfaceV)
+		failed := Not(Eq(err1.Tid, IntConst(0)))
+		// the loop ends with the first call
+		sA := o1.st.Clone()
+		sA.Assume(failed)
+		if !sA.dead {
+			outs = append(outs, result(sA, err1))
+		}
+		// or goes on: the precondition holds again, and from some later state satisfying it a call fails
+		sB := o1.st
+		sB.Assume(Not(failed))
+		if sB.dead {
+			continue
+		}
+		params := e.paramMap(rf, []Value{recv, mkbuf(sB)})
+		cf := &Frame{fn: rf, params: params, entry: sB.Clone(), depth: fr.depth + 1}
+		// the loop invariant: the callee's precondition and its `iterate` clause, if any
+		inv := append([]*Clause{}, sp.Requires...)
+		if sp.Iterate != nil {
+			inv = append(inv, sp.Iterate)
+		}
+		holds := func(s *State, what string) {
+			for _, c := range inv {
+				t := e.evalSpec(s, cf, c, func(n string, t types.Type) (Value, bool) { return e.topEnvLookup(s, cf, n, t) }, true)
+				e.oblige(s, fr, "readall.invariant."+what+"."+c.Name, pos, t)
+			}
+		}
+		holds(sB, "established") // after the first successful call
+		for _, a := range sp.Assigns {
+			if a == "ghost.calls" {
+				continue
+			}
+			e.havocAssign(sB, e.resolveAssign(sB, rf, params, a))
+		}
+		for _, c := range inv {
+			sB.Assume(e.evalSpec(sB, cf, c, func(n string, t types.Type) (Value, bool) { return e.topEnvLookup(sB, cf, n, t) }, true))
+		}
+		for _, o2 := range e.callContract(sB, fr, sp, rf, []Value{recv, mkbuf(sB)}, pos) {
+			err2 := o2.results[1].(*IfaceV)
+			failed2 := Not(Eq(err2.Tid, IntConst(0)))
+			sOK := o2.st.Clone()
+			sOK.Assume(Not(failed2))
+			if !sOK.dead {
+				holds(sOK, "preserved") // a later successful call keeps it (this branch is not an exit)
+			}
+			o2.st.Assume(failed2)
+			if !o2.st.dead {
+				outs = append(outs, result(o2.st, err2))
+			}
+		}
+	}
+	return outs
+}
+
 // ---------- contract summaries at call sites ----------
 
 func (e *Exec) paramMap(fn *ssa.Function, args []Value) map[string]Value {
@@ -730,8 +869,19 @@ func (e *Exec) VerifyFunction(sp *FnSpec, prop string) (err error) {
 			}
 		}
 	}
-	if len(fn.FreeVars) > 0 {
-		return unsupported("closures cannot be verified stand-alone: " + e.curFn)
+	// a closure verified on its own: every captured variable is a cell that existed before the call and holds an
+	// arbitrary (well-formed) value; contracts name the captured variables like parameters
+	for _, fv := range fn.FreeVars {
+		pt, ok := fv.Type().(*types.Pointer)
+		if !ok {
+			return unsupported("free variable that is not a captured variable: " + e.curFn)
+		}
+		cell := e.alloc(st, pt.Elem())
+		v := e.freshInput(st, fv.Name(), pt.Elem())
+		st.StoreLoc(e.locOf(cell), v)
+		fr.env[fv] = cell
+		fr.params[fv.Name()] = v
+		e.curInputs = append(e.curInputs, NamedValue{fv.Name(), pt.Elem(), v})
 	}
 	for callee := range sp.CountCalls {
 		e.ghSet(st, "calls."+callee, BV(64), IntConst(0), BVConst(0, 64)) // ghost call counters start at zero
